@@ -556,7 +556,7 @@ Definition snp_of (render1 : list Z -> Z -> list Z -> list Z) : oracle :=
 
 (* weakest contract the bounds theorem needs: never more than n bytes are written *)
 Definition snp_writes_at_most_n (snp : oracle) : Prop :=
-  forall fmt kind a n, zlen (snd (snp fmt kind a n)) <= n.
+  forall fmt kind a n, 0 <= n -> zlen (snd (snp fmt kind a n)) <= n.
 
 (* ------------------------------------------------------------------ reference: what printf prints *)
 (* printf_spec walks the format with the C grammar  % flags* width? (. precision?)? length? conversion ;
@@ -636,3 +636,13 @@ Fixpoint printf_spec (render1 : list Z -> Z -> list Z -> list Z) (f : list Z) (m
       end
     end
   end.
+
+(* the decoded text: the bytes before the terminating NUL that the return value points at *)
+Definition out_text (o : outcome) : list Z :=
+  match o with Done ret buf _ => takeZ (ret - 1) buf | OutOfBounds _ => [] end.
+
+Definition out_record (max : Z) (o : outcome) : list Z :=
+  match o with Done ret buf _ => takeZ (Z.min ret max) buf | OutOfBounds _ => [] end.
+
+Definition is_oob (o : outcome) : bool := match o with OutOfBounds _ => true | Done _ _ _ => false end.
+Definition out_ret (o : outcome) : Z := match o with Done ret _ _ => ret | OutOfBounds _ => -1 end.
